@@ -39,6 +39,7 @@ class Sim:
         self.trace = []          # list of hops: ("op", pid, opname, file) | ("rewrite", tick) | ...
         self.tls = threading.local()
         self.crash_at = {}       # pid -> number of operations after which it crashes
+        self.fault_at = {}       # pid -> index of the operation that fails with OSError (the process goes on)
         self.nops = {}           # pid -> operations performed
         self.crashed = set()
         self.sched = None        # optional Scheduler
@@ -84,6 +85,13 @@ class Sim:
             self.trace.append(["op", pid, "OCrash", None])
             raise SimCrash()
         self.nops[pid] = k + 1
+        if self.fault_at.get(pid) == k:
+            # an I/O error (disk full, quota, EIO) instead of the operation: unlike a crash the
+            # program keeps running, so its own except / finally clauses take effect
+            self.trace.append(["op", pid, "OFault", f])
+            import errno
+
+            raise OSError(errno.ENOSPC, "simulated I/O error", str(f))
         self.trace.append(["op", pid, name, f])
 
     def stamp(self, path):
